@@ -1,7 +1,9 @@
 """C20 - derived schemas fit their types (structural part; library side here, macro side in c20gen.py).
 
   REGFIRST   find_or_build registers the type's key (the position its node will take) before recursing into the
-             type's own append_schema: recursive types terminate and refer to themselves
+             type's own append_schema: recursive types terminate and refer to themselves; nothing else runs a type's
+             append_schema except wrappers' own append_schema and build_duplicate (the entry point registers the root:
+             found F15)
   OWNFIRST   every hand-written container impl (Vec, Option, HashMap) reserves its own node before building its
              children and fills the reserved slot afterwards; forwarders forward
   CONTAIN    integer / primitive mapping table: the Avro type's range contains the Rust type's, except the rows the
@@ -72,6 +74,24 @@ def run(ctx):
                 # the len() is read before the recursion
                 lens = [bb for bb, t in fb.calls() if call_matches(t, ['Vec::<T, A>::len']) and any(c is t for c in lo.calls)]
                 okk = okk and bool(lens) and bool(rec) and all(fb.dominates(x, rec[0][0]) for x in lens)
+        # every other way into a type's append_schema is a wrapper's own append_schema (same lookup key: the caller
+        # registered it) or build_duplicate (a private copy by design): an entry point that builds its root type without
+        # registering it builds a recursive root a second time when the recursion comes back to it
+        unreg = []
+        n_callers = 0
+        for b2 in f.body_list:
+            if b2.j['kind'] == 'closure':
+                continue
+            cs2 = [(bb, t) for bb, t in b2.calls() if (t.get('callee') or '').endswith('BuildSchema::append_schema') and not b2.is_cleanup(bb)]
+            if not cs2:
+                continue
+            n_callers += 1
+            fl2 = fn_label(b2)
+            if b2 is fb or fl2 == 'SchemaBuilder::build_duplicate' or b2.name == 'append_schema':
+                continue
+            unreg.append('%s at %s' % (fl2, short_loc(cs2[0][1].get('span'))))
+        ctx.ob('REGFIRST', 'entry-points-register-the-root', not unreg and n_callers >= 3, short_loc(fb.span),
+               'functions that run a type\'s append_schema without registering the type first: %s (%d caller(s) of append_schema seen)' % (unreg or 'none', n_callers))
         ctx.ob('REGFIRST', 'key-is-next-node-index', okk, short_loc(fb.span), 'the key registered is SchemaKey::from_idx(nodes.len()) read before recursing: %s' % okk)
         # the returned key is that key (vacant) or the stored one (occupied)
         ro = return_origin(fb)
@@ -301,6 +321,11 @@ def run(ctx):
     scope19 = [b for b in ctx.f.body_list if c19.in_scope(b)]
     c19.canon_guard_semantics(ctx, scope19)
     c19.json_recursion(ctx)
+    # ---- "is a valid Avro schema with one definition per fullname": derived types nest names of different namespaces
+    # ([u8; N] is a fixed in the null namespace inside a record named after its module), so the JSON the frozen schema
+    # reports depends on the renderer's namespace threading (shared with C09)
+    from . import c09
+    c09.namespace(ctx)
 
     # ---- macro side, on the corpus
     c20gen.run(ctx)
